@@ -14,6 +14,9 @@ from harness import core, anngen, project
 from harness.project import call
 
 
+
+RULE_EXTRA = ("arbitrary decimals (1-10 places) as mass shifts; vocabulary names containing > , [ ] ( ) ' / + . in every slot incl. global rules; terminal targets spelled N-term / C-term; a second parse after the first result was edited; TLC-emitted cases written in six parts and processed in batches.")
+
 def rt_event(pp, tid, A, plus, zplus, text):
     ev = {"tid": tid, "k": "rt", "A": A, "plus": plus, "zplus": zplus, "text": text}
     out, a = call(pp.parse, text)
